@@ -86,6 +86,11 @@ def _spawn(job, tmpdir, tier, seed):
     env['PYTHONPATH'] = _pythonpath(env)
     env['PYTHONHASHSEED'] = '0'
     env.update(job.get('env') or {})
+    # scratch space of the worker (wn data directory, real databases of replays) lives inside
+    # the run directory, which is removed when the run ends - also when the worker is killed
+    scratch = os.path.join(tmpdir, f"t{job['n']}")
+    os.makedirs(scratch, exist_ok=True)
+    env['TMPDIR'] = scratch
     log = open(os.path.join(tmpdir, f"job{job['n']}.log"), 'w')
     job['logpath'] = log.name
     job['t0'] = time.time()
@@ -163,11 +168,16 @@ def replay_call(harness, fn, part, call, canary='', timeout=90):
     env = dict(os.environ)
     env['PYTHONPATH'] = _pythonpath(env)
     env.pop('VF_TWIN', None)
+    scratch = tempfile.mkdtemp(prefix='vf-rp-')
+    env['TMPDIR'] = scratch
     try:
         p = subprocess.run(cmd, cwd=VERIF, env=env, capture_output=True, text=True,
                            timeout=timeout)
     except subprocess.TimeoutExpired:
         return {'result': 'timeout'}
+    finally:
+        import shutil
+        shutil.rmtree(scratch, ignore_errors=True)
     lines = [ln for ln in p.stdout.strip().splitlines() if ln.startswith('{')]
     if not lines:
         return {'result': 'error', 'stderr': (p.stderr or '')[-2000:]}
